@@ -1767,10 +1767,13 @@ void BSGeometry::Sync(NiStreamReversible& stream) {
 		stream.Sync(testByte);
 		if (testByte) {
 			if (stream.GetMode() == NiStreamReversible::Mode::Reading) {
+				// A present slot can follow an absent one, so the mesh just added is not always meshes[i]
 				BSGeometryMesh mesh{};
 				meshes.push_back(mesh);
+				meshes.back().Sync(stream);
 			}
-			meshes[i].Sync(stream);
+			else
+				meshes[i].Sync(stream);
 		}
 	}
 }
